@@ -96,6 +96,7 @@ inductive CExpr (τ : Type) where
   | tracked (x : Name) (op : Nat) (v : Int)   -- `tracked <op> v`  (0 <, 1 <=, 2 ==, 3 !=, 4 >=, 5 >)
   | tracked2 (x : Name) (op : Nat) (y : Name)  -- `tracked_x <op> tracked_y`
   | resLevel (r : Name) (op : Nat) (amounts : List Int)   -- `resources <op> {..}`
+  | ref (n : Name)                  -- a condition object bound to a program variable earlier (`defCond`)
   deriving Inhabited
 
 /-- what `until(..)` listens to -/
@@ -146,6 +147,7 @@ inductive Stmt (τ : Type) where
   | log (k : Int)
   | logNow
   | logCond (c : CExpr τ)                            -- probe: `bool(c)` against the boolean-algebra reading
+  | defCond (n : Name) (c : CExpr τ)                 -- `x = <condition expression>`: one object shared by several activities
   | sleep (d : τ)                                    -- `await (time + d)`
   | awaitC (c : CExpr τ)
   | setFlag (f : Name) (b : Bool)
@@ -628,6 +630,7 @@ structure World (τ : Type) where
   pipes : Array (Pipe τ) := #[]
   /-- program-level names: flag name -> cond id, task name -> task id, scope name -> scope id -/
   flagIds : List (Name × CondId) := []
+  condNames : List (Name × CondId) := []
   taskNames : List (Name × TaskId) := []
   scopeNames : List (Name × ScopeId) := []
   /-- control stack: the activity executing (top) and the activities that are synchronously closing it -/
